@@ -16,7 +16,9 @@ import (
 // entry; the other elements well-formed shards).
 //
 //verif:replace io/ioutil.ReadFile verifReadFile
+//verif:replace os.ReadFile verifReadFile
 //verif:replace io/ioutil.WriteFile verifWriteFile
+//verif:replace os.WriteFile verifWriteFile
 //verif:replace encoding/json.Unmarshal verifUnmarshal
 //verif:replace encoding/json.Marshal verifMarshal
 
